@@ -661,9 +661,12 @@ func readUnion(tr *tokenReader) (Union, error) {
 			nextCommentLines = []string{}
 			nextCommentTags = []Tag{}
 
-			// This is a close curly-- we must advance past it or the union
-			// will read it and believe it is complete
-			tr.Next()
+			// The branch's close curly is the current token, and the union must
+			// not take it for its own. The branch reader leaves it un-read when the
+			// branch body is empty on one line and consumed otherwise, so drop a
+			// pending un-read instead of advancing: advancing unconditionally ate
+			// the union's own close curly in the second case.
+			tr.keepNextToken = false
 			skipEndOfLineComments(tr)
 			optNewline(tr)
 
